@@ -312,6 +312,22 @@ func (r *Run) Fresh(prefix string) Val {
 }
 
 func (r *Run) NewObj(name string, local bool) *Obj {
+	// names are unique within a run: later objects of the same name get #n
+	base, n := name, 1
+	for {
+		clash := false
+		for _, o := range r.objs {
+			if o.Name == name {
+				clash = true
+				break
+			}
+		}
+		if !clash {
+			break
+		}
+		n++
+		name = fmt.Sprintf("%s#%d", base, n)
+	}
 	o := newObj(name, local)
 	r.objs = append(r.objs, o)
 	return o
@@ -436,7 +452,7 @@ func (r *Run) exec(fr *frame, b *ssa.BasicBlock, skipPhis bool) (string, []Val) 
 			}
 			r.asked = map[string]bool{}
 			skipPhis = true
-		} else if !skipPhis && fr.fn == r.reg.Fn && r.reg.Cuts[b] && fr.prev != nil {
+		} else if !skipPhis && fr.fn == r.reg.Fn && r.reg.Cuts[b] && fr.prev != nil && (r.reg.Start == nil || r.entered) {
 			// arrived at a cut: record next-iteration values
 			for _, in := range b.Instrs {
 				phi, ok := in.(*ssa.Phi)
@@ -1208,6 +1224,43 @@ func (r *Run) ClearCell(obj, path string) {
 			}
 		}
 	}
+}
+
+// VarargElems returns the rendered elements of a variadic argument slice that
+// was built in place (new [n]T; stores; slice).
+func (r *Run) VarargElems(v Val) []string {
+	o, ok := v.(VOpq)
+	if !ok {
+		if c, ok := v.(VConst); ok && c.V == nil {
+			return nil
+		}
+		return []string{render(v)}
+	}
+	name := strings.TrimSuffix(strings.TrimPrefix(o.Name, "&"), "[:]")
+	for _, ob := range r.objs {
+		if ob.Name == name {
+			keys := make([]string, 0, len(ob.cells))
+			for k := range ob.cells {
+				keys = append(keys, k)
+			}
+			sort.Strings(keys)
+			out := []string{}
+			for _, k := range keys {
+				out = append(out, render(ob.cells[k]))
+			}
+			return out
+		}
+	}
+	return []string{o.Name}
+}
+
+// SprintfSummary models fmt.Sprintf as an opaque value that records format and operands.
+func SprintfSummary(r *Run, cc *ssa.CallCommon, args []Val) (Val, error) {
+	parts := []string{render(args[0])}
+	if len(args) > 1 {
+		parts = append(parts, r.VarargElems(args[1])...)
+	}
+	return VOpq{"Sprintf(" + strings.Join(parts, "|") + ")"}, nil
 }
 
 type calleePanic struct {
